@@ -1,7 +1,7 @@
 #!/bin/bash
 # apply a seeded patch to /repo, run a check subset, revert.  usage: tools_seed_run.sh <seed dir> <prop> [only-regex]
 d=/verif/seeded/$1; prop=$2; only=$3
-cd /repo && git apply $d/patch.diff || { echo "patch does not apply"; exit 2; }
+pf=$d/patch.diff; [ -f $d/patch_adapted.diff ] && pf=$d/patch_adapted.diff; cd /repo && git apply $pf || { echo "patch does not apply"; exit 2; }
 cd /verif
 if [ -n "$only" ]; then ./check $prop --only "$only" > /var/tmp/seedrun_$1.log 2>&1; else ./check $prop > /var/tmp/seedrun_$1.log 2>&1; fi
 rc=$?
